@@ -16,13 +16,13 @@ inline bool single_kind(int k) { return k == K_PUSH_COPY || k == K_PUSH_MOVE || 
 inline bool gtal_kind(int k) { return k == K_GTAL || k == K_GTAL_VAL; }
 
 struct Op { uint8_t kind = K_PUSH_COPY; uint64_t arg = 0; uint16_t delay = 0; };
-enum { F_NONE = 0, F_CTOR = 1, F_ALLOC = 2 };
+enum { F_NONE = 0, F_CTOR = 1, F_ALLOC = 2, F_TABLE = 3 };
 struct Plan {
     int cls = 'G'; uint64_t seed = 0; int nthreads = 2;
     std::vector<Op> pre;                    // sequential prefix run by the coordinator
     std::vector<Op> ops[Pool::kMax];
     std::vector<Op> post;                   // sequential growth after the concurrent part (class M / Salloc)
-    int fault = F_NONE; long fault_at = -1;
+    int fault = F_NONE; long fault_at = -1; uint32_t table_delay_us = 0;
     uint32_t alloc_delay_prob = 0;
 };
 inline void ops_json(Json& j, const std::vector<Op>& ops) { j.arr(); for (auto& o : ops) { j.arr(); j.val(kind_names[o.kind]); j.val((unsigned long long)o.arg); j.end_arr(); } j.end_arr(); }
@@ -31,7 +31,7 @@ inline std::string plan_json(const Plan& p) {
     j.key("prefix"); ops_json(j, p.pre);
     j.key("ops").arr(); for (int t = 0; t < p.nthreads; t++) ops_json(j, p.ops[t]); j.end_arr();
     if (!p.post.empty()) { j.key("after"); ops_json(j, p.post); }
-    j.kv("fault", p.fault == F_CTOR ? "constructor" : p.fault == F_ALLOC ? "allocation" : "none"); j.kv("fault_at", (long long)p.fault_at);
+    j.kv("fault", p.fault == F_CTOR ? "constructor" : p.fault == F_ALLOC ? "allocation" : p.fault == F_TABLE ? "allocation of the long segment table" : "none"); j.kv("fault_at", (long long)p.fault_at);
     j.kv("alloc_delay_prob_65536", (unsigned)p.alloc_delay_prob);
     j.end_obj(); return j.s;
 }
@@ -244,6 +244,23 @@ inline void gen_prefix(Rng& r, Plan& p, uint64_t& est) {
     else { o.kind = K_RESERVE; o.arg = n; p.pre.push_back(o); o.kind = K_GROW_ITER; o.arg = 1 + r.below(n); est += o.arg; }
     p.pre.push_back(o);
 }
+// class T: 0-8 elements, then 2-4 threads append single elements at once; the thread that has to extend the segment table (the one whose
+// index is 8 or below) fails to allocate it - slowly, so that threads with higher indices are already waiting for the table when the
+// failure is published. Every call must return or throw; nothing grows afterwards (further growth meets the known defect of class M).
+inline Plan gen_table_plan(Rng& r) {
+    Plan p; p.cls = 'T'; p.seed = r.next();
+    Rng g(p.seed);
+    p.nthreads = 2 + (int)g.below(3);
+    int pre = g.chance(1, 4) ? (int)g.below(9) : 5 + (int)g.below(4);
+    for (int i = 0; i < pre; i++) { Op o; o.kind = g.chance(1, 2) ? K_PUSH_COPY : K_EMPLACE; p.pre.push_back(o); }
+    for (int t = 0; t < p.nthreads; t++) {
+        int cnt = 1 + (int)g.below(3);
+        for (int i = 0; i < cnt; i++) { Op o; unsigned x = (unsigned)g.below(3); o.kind = x == 0 ? K_PUSH_COPY : x == 1 ? K_PUSH_MOVE : K_EMPLACE; if (g.chance(1, 4)) o.delay = (uint16_t)g.below(800); p.ops[t].push_back(o); }
+    }
+    p.alloc_delay_prob = 0;
+    p.fault = F_TABLE; p.fault_at = 0; p.table_delay_us = g.chance(1, 5) ? 0 : 100 + (uint32_t)g.below(2500);
+    return p;
+}
 inline Plan gen_plan(Rng& r, int cls, long case_index) {
     Plan p; p.cls = cls; p.seed = r.next();
     Rng g(p.seed);
@@ -436,7 +453,7 @@ inline void run_growth(Engine& E, const Plan& p, Rng& r) {
     uint64_t scn = ++E.scn;
     CtxScope cx;
     Verdict vd; Quiescent q; Sweep sw;
-    ExecCfg cfg{ cls, p.fault != F_NONE, p.fault == F_ALLOC, E.strict_gtal };
+    ExecCfg cfg{ cls, p.fault != F_NONE, p.fault == F_ALLOC || p.fault == F_TABLE, E.strict_gtal };
     ExecCfg cfg_pre{ cls, false, false, E.strict_gtal };
     for (int t = 0; t < Pool::kMax + 2; t++) E.ts[t].reset(mix(p.seed, 77 + t));
     std::vector<const CallRec*> recs; std::vector<Sample> samples;
@@ -447,6 +464,7 @@ inline void run_growth(Engine& E, const Plan& p, Rng& r) {
         int cn = 0; for (auto& o : p.pre) exec_op(v, o, kPreTid, cn++, scn, E.ts[kPreTid], cfg_pre);
         cx->alloc_delay_prob.store(p.alloc_delay_prob);
         if (p.fault == F_CTOR) cx->ctor_arm.store(p.fault_at); else if (p.fault == F_ALLOC) cx->alloc_arm.store(p.fault_at);
+        else if (p.fault == F_TABLE) { cx->table_delay_us.store(p.table_delay_us); cx->table_arm.store(p.fault_at); }
         perturb_random(r, hook_ids());
         hc.phase.store(1);
         E.pool.run(p.nthreads, [&](int t) {
@@ -455,7 +473,7 @@ inline void run_growth(Engine& E, const Plan& p, Rng& r) {
             for (const Op& o : p.ops[t]) { if (o.delay) spin_iters(o.delay); exec_op(v, o, t, k++, scn, ts, cfg); progress(); }
         });
         perturb().clear();
-        cx->ctor_arm.store(-1); cx->alloc_arm.store(-1); cx->alloc_delay_prob.store(0);
+        cx->ctor_arm.store(-1); cx->alloc_arm.store(-1); cx->table_arm.store(-1); cx->alloc_delay_prob.store(0);
         T0.tid = kPostTid;
         if (!p.post.empty()) {
             hc.phase.store(2);
@@ -470,8 +488,8 @@ inline void run_growth(Engine& E, const Plan& p, Rng& r) {
             gtal_short += ts.gtal_short; gtal_returns += ts.gtal_returns; own_checked += ts.own_checked;
             if (!ts.fail_what.empty()) vd.fail(ts.fail_what, ts.fail_detail);
         }
-        if (vd.ok()) verify_quiescent(v, *cx.c, recs, samples, cls, vd, q);
-        if (vd.ok() && cls == 'M') sweep_at(v, *cx.c, vd, sw, cls);
+        if (vd.ok()) verify_quiescent(v, *cx.c, recs, samples, cls == 'T' ? 'M' : cls, vd, q);
+        if (vd.ok() && (cls == 'M' || cls == 'T')) sweep_at(v, *cx.c, vd, sw, cls);
         T0.tid = -1;
     }   // the vector is destroyed here
     Ctx& c = *cx.c;
@@ -506,6 +524,7 @@ inline void run_growth(Engine& E, const Plan& p, Rng& r) {
     if (p.fault != F_NONE) {
         R.stat(C + "_calls_ended_by_exception", excs);
         if (c.ctor_fired.load()) R.stat(C + "_ctor_faults_fired"); if (c.alloc_fired.load()) R.stat(C + "_alloc_faults_fired");
+        if (c.table_fired.load()) { R.stat("T_table_allocation_failed"); if (excs >= 2) R.stat("T_scenarios_where_other_calls_threw_too"); R.stat("T_calls_ended_by_exception_besides_the_allocating_one", std::max(0L, excs - 1)); }
         if (!c.ctor_fired.load() && !c.alloc_fired.load()) R.stat(C + "_fault_not_reached");
         R.stat(C + "_holes_zero_filled", q.holes_zero + sw.zero); R.stat(C + "_at_ok", sw.ok); R.stat(C + "_at_threw", sw.threw);
     }
